@@ -37,6 +37,48 @@ type Frame struct {
 	entrySt State
 	args   []Val
 	mapPos string
+	// in-place updates of slice values (element writes, sorting): visible only at program points dominated
+	// by the update
+	rebinds  []rebind
+	curBlock *ssa.BasicBlock
+	curIdx   int
+}
+
+type rebind struct {
+	v     ssa.Value
+	block *ssa.BasicBlock
+	idx   int
+	val   Val
+}
+
+func (fr *Frame) addRebind(v ssa.Value, val Val) {
+	fr.rebinds = append(fr.rebinds, rebind{v: v, block: fr.curBlock, idx: fr.curIdx, val: val})
+}
+
+func (fr *Frame) applyRebinds(v ssa.Value, val Val) Val {
+	best := -1
+	for i, r := range fr.rebinds {
+		if r.v != v || fr.curBlock == nil {
+			continue
+		}
+		visible := (r.block == fr.curBlock && r.idx < fr.curIdx) || (r.block != fr.curBlock && r.block.Dominates(fr.curBlock))
+		if !visible {
+			continue
+		}
+		if best < 0 {
+			best = i
+			continue
+		}
+		b := fr.rebinds[best]
+		// prefer the later update: same block -> larger index; otherwise the one dominated by the other
+		if (r.block == b.block && r.idx > b.idx) || (r.block != b.block && b.block.Dominates(r.block)) {
+			best = i
+		}
+	}
+	if best >= 0 {
+		return fr.rebinds[best].val
+	}
+	return val
 }
 
 type deferred struct {
@@ -647,7 +689,8 @@ func (fr *Frame) execBlock(b *ssa.BasicBlock, entry State) {
 		}
 	}
 
-	for _, in := range b.Instrs[len(phis):] {
+	for i, in := range b.Instrs[len(phis):] {
+		fr.curBlock, fr.curIdx = b, i
 		fr.execInstr(b, in, &st, reach)
 	}
 	fr.out[b.Index] = st
@@ -674,6 +717,9 @@ func (fr *Frame) get(v ssa.Value) Val {
 		return fc.freshVal(x.Type(), "free")
 	}
 	if val, ok := fr.vals[v]; ok {
+		if len(fr.rebinds) > 0 {
+			return fr.applyRebinds(v, val)
+		}
 		return val
 	}
 	// value defined in a block that was not executed (unreachable) or a parameter without arg
@@ -1559,7 +1605,32 @@ func (fr *Frame) loopEntry(b *ssa.BasicBlock, phis []*ssa.Phi, preds []*ssa.Basi
 	body := loopBody(b)
 	mods := fr.modSet(body)
 	if mods.worlds {
-		st.worlds = fc.B.Fresh("W_loop", "(Array Int WorldS)")
+		// only the branches of contexts/stores known to this frame can be written by the loop body (A-ctx);
+		// branches created inside the body are fresh. Everything else keeps its entry value.
+		seen := map[string]bool{}
+		w := st.worlds
+		for _, v := range fr.vals {
+			br := ""
+			switch v.S {
+			case "Ctx":
+				br = "(c_br " + v.T + ")"
+			case "View":
+				br = "(v_br " + v.T + ")"
+			}
+			if br == "" || seen[br] {
+				continue
+			}
+			seen[br] = true
+		}
+		var brs []string
+		for b := range seen {
+			brs = append(brs, b)
+		}
+		sort.Strings(brs)
+		for _, b := range brs {
+			w = "(store " + w + " " + b + " " + fc.B.Fresh("w_loop", "WorldS") + ")"
+		}
+		st.worlds = fc.B.Define("W_loop", "(Array Int WorldS)", w)
 	}
 	for hs := range mods.heaps {
 		// keep allocations made inside the loop out of the frame: havoc the whole heap of that sort
@@ -1611,7 +1682,24 @@ func clauseName(c Clause, i int) string {
 
 func (fr *Frame) invEnv(b *ssa.BasicBlock, phis map[string]Val, st *State) *Env {
 	env := fr.fc.contractEnv(fr.fn, fr.args, nil, &fr.entrySt, st)
-	env.lookup = func(name string) (Val, bool) { return fr.lookupName(name, b, phis) }
+	if fr.isTop && fr.fc.C != nil {
+		env.pkgPath = fr.fc.C.PkgPath
+		for k, v := range fr.fc.lets { // contract lets (entry-state values) are visible in invariants
+			if _, ok := env.vars[k]; !ok {
+				env.vars[k] = v
+			}
+		}
+	}
+	env.lookup = func(name string) (Val, bool) {
+		if v, ok := fr.lookupName(name, b, phis); ok {
+			return v, true
+		}
+		// a local whose address is taken lives in a cell: read its current content
+		if p, ok := fr.lookupName("&"+name, b, phis); ok && p.PBase != nil {
+			return fr.fc.load(st, p), true
+		}
+		return Val{}, false
+	}
 	return env
 }
 
